@@ -163,25 +163,49 @@ def add_source_exits(impl):
     if "suppress" in body[:m.start()]:
         raise TranslateError("add_source: suppressions touched before the source is parsed")
     rest = body[end + 1:]
-    exits, stack = [], [False]
-    tok = re.compile(r"self\s*\.\s*warnings\s*\.\s*clear_suppressed\s*\(\s*\)|\breturn\b|\?\s*[;)\n.,]|[{}]|\"(?:[^\"\\]|\\.)*\"")
+    # per block: (suppressions cleared, parser errors appended to self.errors)
+    exits, stack = [], [(False, False)]
+    tok = re.compile(r"self\s*\.\s*warnings\s*\.\s*clear_suppressed\s*\(\s*\)|self\s*\.\s*errors\s*\.\s*extend\s*\(\s*ast\s*\.\s*into_errors\s*\(\s*\)|\breturn\b|\?\s*[;)\n.,]|[{}]|\"(?:[^\"\\]|\\.)*\"")
     for t in tok.finditer(rest):
         g = t.group(0)
         if g == "{": stack.append(stack[-1])
         elif g == "}":
             if len(stack) > 1: stack.pop()
         elif g.startswith('"'): continue
-        elif g.startswith("self"): stack[-1] = True
+        elif "clear_suppressed" in g: stack[-1] = (True, stack[-1][1])
+        elif "into_errors" in g: stack[-1] = (stack[-1][0], True)
         elif g == "return":
             d = rest[t.end():t.end() + 60].strip().split("\n")[0]
-            exits.append((f"return {d[:40]}".replace('"', "'"), stack[-1]))
+            exits.append((f"return {d[:40]}".replace('"', "'"),) + stack[-1])
         else:
             d = rest[max(0, t.start() - 50):t.start()].strip().split("\n")[-1]
-            exits.append((f"{d[-40:]}?".replace('"', "'"), stack[-1]))
+            exits.append((f"{d[-40:]}?".replace('"', "'"),) + stack[-1])
     tail = rest.strip().split("\n")[-1].strip()
-    exits.append((f"final value {tail[:40]}".replace('"', "'"), stack[0]))
+    exits.append((f"final value {tail[:40]}".replace('"', "'"),) + stack[0])
+    if rest.count("into_errors") != 1:
+        raise TranslateError("add_source: expected exactly one `ast.into_errors()`")
     # the suppressions are consulted in Warnings::add only
     return exits
+
+
+def include_stack_balanced(impl):
+    body = strip_comments(fn_body(impl, "c_items"))
+    pushes = [m.start() for m in re.finditer(r"self\s*\.\s*include_stack\s*\.\s*push\s*\(", body)]
+    pops = [m.start() for m in re.finditer(r"self\s*\.\s*include_stack\s*\.\s*pop\s*\(\s*\)", body)]
+    if len(pushes) != 1:
+        raise TranslateError("c_items: expected exactly one include_stack.push")
+    if len(pops) != 1 or pops[0] < pushes[0]:
+        return False
+    between = re.sub(r'"(?:[^"\\]|\\.)*"', '""', body[pushes[0]:pops[0]])
+    if re.search(r"\b(continue|break|return)\b|\?\s*[;)\n.,]", between):
+        return False
+    # push and pop in the same block
+    depth = 0
+    for ch in between:
+        if ch == "{": depth += 1
+        elif ch == "}": depth -= 1
+        if depth < 0: return False
+    return depth == 0
 
 
 def main():
@@ -293,8 +317,17 @@ def main():
     L.append("")
     L.append("(* add_source: every exit after the warning-suppression hook was created (return / ? / final value),")
     L.append("   and whether `self.warnings.clear_suppressed()` was executed on the way to it *)")
+    ase = add_source_exits(impl)
     L.append("Definition add_source_exits : list (string * bool) :=\n  [" +
-             ";\n   ".join(f'("{d}", {str(r).lower()})' for d, r in add_source_exits(impl)) + "].")
+             ";\n   ".join(f'("{d}", {str(r).lower()})' for d, r, _ in ase) + "].")
+    L.append("")
+    L.append("(* same exits: were the parser's errors (`ast.into_errors()`) appended to `self.errors` before leaving? *)")
+    L.append("Definition add_source_exits_record_parser_errors : list (string * bool) :=\n  [" +
+             ";\n   ".join(f'("{d}", {str(r).lower()})' for d, _, r in ase) + "].")
+    L.append("")
+    L.append("(* c_items, `include` arm: between `self.include_stack.push(..)` and `self.include_stack.pop()` there is")
+    L.append("   no way out of the arm (continue / break / return / ?), and these are the only push and pop *)")
+    L.append(f"Definition include_stack_balanced : bool := {str(include_stack_balanced(impl)).lower()}.")
     L.append("")
     write_if_changed("SnapshotGen.v", "\n".join(L) + "\n")
 
